@@ -35,8 +35,10 @@ func (m *Multi) ClearLoaders() {
 // Open will open the file passed by trying all loaders in succession.
 func (m *Multi) Open(name string) (io.ReadCloser, error) {
 	for _, loader := range m.loaders {
-		if f, err := loader.Open(name); err == nil {
-			return f, nil
+		// ask Exists first: Open alone may succeed for paths a loader does not
+		// consider templates (e.g. a directory for the OS file system loader)
+		if loader.Exists(name) {
+			return loader.Open(name)
 		}
 	}
 	return nil, &os.PathError{Op: "open", Path: name, Err: os.ErrNotExist}
